@@ -345,8 +345,11 @@ class HistogramND(HistogramBase):
             return ixbins
 
     def fill(self, value: ArrayLike, weight: float = 1, **kwargs):
-        self._coerce_dtype(type(weight))
         value_array = np.asarray(value)
+        if np.isnan(value_array).any():
+            # Consistent with fill_n (dropna=True): not a number => not counted
+            return None
+        self._coerce_dtype(type(weight))
         for i, binning in enumerate(self._binnings):
             if binning.is_adaptive():
                 bin_map = binning.force_bin_existence(value_array[i])
